@@ -283,7 +283,7 @@ pub fn run(seed: u64, thorough: bool) -> u64 {
         n += 1;
     }
     let mut rng = Rng::seeded(seed, 10);
-    let rounds = if thorough { 30_000 } else { 2_500 };
+    let rounds = if thorough { 60_000 } else { 5_000 };
     for round in 0..rounds {
         let mut links = [Link::Healthy; N_EX];
         if round % 3 == 0 { for l in links.iter_mut() { *l = match rng.below(5) { 0 => Link::Closed, 1 => Link::Missing, _ => Link::Healthy }; } }
